@@ -202,6 +202,14 @@ def execute(world, opsource, fault, want_lines=False, trace_all=False):
         else:
             text = data.decode("latin-1")
             lines = text.split("\r\n") if text != "" else []
+            if lines != final_recs:
+                # "the records accumulated so far (exactly what is written when the with block is left)": the
+                # file that the real __exit__ wrote is replayed below - it has to be those records
+                k = next((j for j, (a, b) in enumerate(zip(lines, final_recs)) if a != b), min(len(lines), len(final_recs)))
+                viol("C03.file", last_idx, last_op, res.exc_type,
+                     f"the file written on leaving the with block holds {len(lines)} lines, the worklist {len(final_recs)} records; "
+                     f"first difference at line {k}: {lines[k][:60]!r} vs {final_recs[k][:60]!r}" if k < min(len(lines), len(final_recs))
+                     else f"the file written on leaving the with block holds {len(lines)} lines, the worklist {len(final_recs)} records")
             robot2 = make_robot(world)
             for j, rec in enumerate(lines):
                 oi, oop = op_of_record[j] if j < len(op_of_record) else (last_idx, last_op)
@@ -461,6 +469,8 @@ class Program:
                 self.pending_invalid = self.gen.gen_invalid(sess)
                 return self.pending_invalid, False
             if r < 0.2:
+                if rng.random() < 0.12:
+                    return {"op": "bulk_comment", "n": rng.choice([999, 1000, 1001, 2049]), "text": "step ", "width": 0}, False
                 return self.gen.gen_misc(), False
             if r < 0.24:
                 return self.lowlevel(sess), False
